@@ -308,6 +308,13 @@ class VPy(V):
         return f"VPy({self.path or self.obj!r})"
 
 
+class VPoison(V):
+    """a loop-carried variable whose type is unknown: any read is out-of-subset"""
+
+    def __init__(self, name):
+        self.name = name
+
+
 class VFunc(V):
     def __init__(self, kind, name, **kw):
         self.kind, self.name = kind, name
